@@ -33,6 +33,10 @@ pub enum AT<'a> {
     F64(f64),
     Stashed(ArcTerm),
     RcStashed(RcTerm),
+    /// sophia_sparql's result term, fresh
+    Result(sophia_sparql::ResultTerm),
+    /// the same after `value()` has cached its SPARQL value
+    ResultValued(sophia_sparql::ResultTerm),
 }
 
 macro_rules! with_at {
@@ -59,6 +63,8 @@ macro_rules! with_at {
             AT::F64($t) => $body,
             AT::Stashed($t) => $body,
             AT::RcStashed($t) => $body,
+            AT::Result($t) => $body,
+            AT::ResultValued($t) => $body,
         }
     };
 }
@@ -87,6 +93,8 @@ impl AT<'_> {
             AT::F64(_) => "f64",
             AT::Stashed(_) => "ArcStrStash::copy_term",
             AT::RcStashed(_) => "RcStrStash::copy_term",
+            AT::Result(_) => "ResultTerm",
+            AT::ResultValued(_) => "ResultTerm(value cached)",
         }
     }
 }
@@ -121,6 +129,12 @@ pub fn materialise<'a>(t: &'a ST, strs: &'a [String], stash: &mut ArcStrStash, r
         AT::Rc(t.into_term::<RcTerm>()),
         AT::Stashed(stash.copy_term(t)),
         AT::RcStashed(rcstash.copy_term(t)),
+        AT::Result(sophia_sparql::ResultTerm::from(t.into_term::<ArcTerm>())),
+        AT::ResultValued({
+            let r = sophia_sparql::ResultTerm::from(t.into_term::<ArcTerm>());
+            let _ = r.value();
+            r
+        }),
     ];
     match t.kind() {
         TermKind::Iri => {
@@ -225,6 +239,9 @@ fn pair_event(a: &ST, b: &ST, tr: &mut Trace) {
     std_pair!(AT::Cmp, AT::Cmp, "CmpTerm");
     std_pair!(AT::GenLit, AT::GenLit, "GenericLiteral");
     std_pair!(AT::Stashed, AT::Arc, "ArcTerm(stash)/ArcTerm");
+    std_pair!(AT::Result, AT::Result, "ResultTerm");
+    std_pair!(AT::ResultValued, AT::ResultValued, "ResultTerm(value cached)");
+    std_pair!(AT::ResultValued, AT::Result, "ResultTerm(value cached)/ResultTerm");
     // heterogeneous PartialEq<T: Term>
     let (mut xeq, mut xnames) = (vec![], vec![]);
     for x in &ha {
